@@ -16,8 +16,8 @@ CONSTANTS MaxFacts, MaxOps, MemoDepth,
 (* i1 Integer(1), f1 Float(1.0), s1 String("1"), bt Boolean(true), st String("true"), arr Array([Integer(1)]),  *)
 (* null Null, z Float(0.0), nz Float(-0.0), nan Float(NaN), tiny Float(1e-20) (non-zero, below machine epsilon),  *)
 (* i0 Integer(0); "none" = field absent                                                                          *)
-Vals   == {"i1", "f1", "s1", "bt", "st", "arr", "null", "z", "nz", "nan", "tiny", "i0"}
-XVals  == {"i1", "f1", "s1", "null", "z", "nz", "nan", "tiny", "i0", "none"}      \* values generated for field x
+Vals   == {"i1", "f1", "s1", "bt", "st", "arr", "null", "z", "nz", "nan", "tiny", "i0", "az", "anz"}   \* az = [0.0, 2.5], anz = [-0.0, 2.5]: equal arrays
+XVals  == {"i1", "f1", "s1", "null", "z", "nz", "nan", "tiny", "i0", "az", "anz", "none"}      \* values generated for field x
 YVals  == {"i1", "none"}
 (* overridable: the deep alpha-only configuration uses four x values and one y value *)
 Machines == {"alpha", "beta", "memo", "concl"}
@@ -25,7 +25,7 @@ AlphaOnly == {"alpha"}
 XSmall == {"z", "nz", "i1", "none"}
 YOne == {"i1"}
 Eq(a, b) == IF a = "nan" \/ b = "nan" THEN FALSE
-            ELSE IF {a, b} \subseteq {"z", "nz"} THEN TRUE ELSE a = b
+            ELSE IF {a, b} \subseteq {"z", "nz"} \/ {a, b} \subseteq {"az", "anz"} THEN TRUE ELSE a = b
 
 VARIABLES m, facts, indexed,      \* alpha: sequence of [x, y]; set of indexed fields
           liveb,                  \* beta: set of live universe-fact ids
@@ -52,7 +52,7 @@ ADrop(f)   == /\ m = "alpha" /\ indexed' = indexed \ {f} /\ UNCHANGED <<m, facts
 (* the statement: Filter does not depend on `indexed` *)
 Filter(f, v) == {i \in DOMAIN facts : facts[i][f] # "none" /\ Eq(facts[i][f], v)}
 (* as built: buckets keyed by a rendering of the value; Key must satisfy Key(a) = Key(b) <=> Eq(a, b) *)
-Key(v) == IF KeyKind = "canon" /\ v \in {"z", "nz"} THEN "zero" ELSE v   \* canon: 0.0 and -0.0 share a key, NaN has none
+Key(v) == IF KeyKind = "canon" /\ v \in {"z", "nz"} THEN "zero" ELSE IF KeyKind = "canon" /\ v \in {"az", "anz"} THEN "azero" ELSE v   \* canon: 0.0 and -0.0 share a key, NaN has none
 HasKey(v) == KeyKind = "debug" \/ v # "nan"
 FilterBuilt(f, v) == IF f \in indexed
                      THEN IF ~HasKey(v) THEN {}
